@@ -109,7 +109,7 @@ SHAPES = {
                         "  interface\n    module function twice(n) result(r)\n      !! interface doc\n      integer, intent(in) :: n\n      integer :: r\n    end function twice\n  end interface\n  public :: twice\n"
                         "contains\n  function new_circle(r) result(c)\n    !! new doc\n    real, intent(in) :: r\n    type(circle) :: c\n    c%r = r\n  end function new_circle\n"
                         "  subroutine show(self)\n    !! show doc\n    class(base_t) :: self\n  end subroutine show\n"
-                        "  subroutine host()\n    !! host doc\n    type :: loc\n      !! summary: a short text of its own\n      !!\n      !! local type doc, see [[geo]] and [[helper]]\n      integer :: i\n    end type loc\n    type(loc) :: x\n  end subroutine host\n"
+                        "  subroutine host()\n    !! host doc\n    type :: loc\n      !! summary: a short text of its own\n      !!\n      !! local type doc, see [[geo]] and [[helper]]\n      integer :: i\n    end type loc\n    type :: loc2\n      !! second local type, see [[geo]] and [[helper]]\n      integer :: j\n        !! component doc, see [[circle]]\n    end type loc2\n    type(loc) :: x\n  end subroutine host\n"
                         "  subroutine helper()\n    !! helper doc\n  end subroutine helper\nend module geo\n"
                         "submodule (geo) geo_impl\ncontains\n  module procedure twice\n    !! implementation doc\n    r = 2 * n\n  end procedure twice\nend submodule geo_impl\n"),
     },
